@@ -951,6 +951,45 @@ def check_bits(ck, prog):
     ck.floor("C15-BITS", 40)
 
 
+def check_end_after_drain(ck, prog, rule="C15-PROTO"):
+    """simple_code() first drains what is left in coder->buffer (lzma_bufcpy from coder->buffer).  If the next coder has
+    already finished (end_was_reached), the drained bytes were the last ones: the function has to consult the flag there and
+    return LZMA_STREAM_END.  Every path from that drain to copy_or_code() (asking the next coder for more) must therefore
+    pass a test of end_was_reached; otherwise the finished next coder is called again and the end of the stream is
+    reported differently depending on whether the last bytes fitted into the caller's buffer."""
+    f = prog.fn("simple_code", "simple_coder.c")
+    ck.saw_function(f)
+    drains = [b.id for b, i, e in f.iter_elems() for c in ex.calls(e, into_refs=True)
+              if c.get("fn") == "lzma_bufcpy" and c["args"] and ex.show(c["args"][0]) == "coder->buffer"]
+    asks = [b.id for b, i, e in f.iter_elems() for c in ex.calls(e, into_refs=True) if c.get("fn") == "copy_or_code"]
+    tests = {b.id for b in f.blocks.values() if b.term and "cond" in b.term and "end_was_reached" in ex.show(b.term["cond"])
+             and b.term.get("kind") != "__assert"}
+    # assertion tests do not count: with NDEBUG they vanish
+    tests = {t for t in tests if not any(
+        f.blocks[y].elems and any(cc.get("fn") == "__assert_fail" for e in f.blocks[y].elems if e is not None
+                                  for cc in ex.calls(e, into_refs=True))
+        for y in f.blocks[t].succs if y is not None)}
+    if not drains or not asks:
+        raise AnalysisBroken("simple_code: drain of coder->buffer / copy_or_code() call not found")
+    first = max(drains)         # clang numbers blocks from the exit: the largest id is the first drain in program order
+    seen, st, open_ = set(), [y for y in f.blocks[first].succs if y is not None], False
+    while st:
+        x = st.pop()
+        if x in seen or x in tests:
+            continue
+        seen.add(x)
+        if x in asks:
+            open_ = True
+            break
+        st.extend(y for y in f.blocks[x].succs if y is not None)
+    ck.ob(rule, "end-checked-after-drain", not open_, common.where(f),
+          "simple_code: after draining coder->buffer the end flag is tested before the next coder is asked for more" if not open_ else
+          "simple_code(): after the already-filtered bytes were drained from coder->buffer, copy_or_code() can be reached "
+          "without a test of coder->end_was_reached: when the next coder had already finished, it is called again instead of "
+          "returning LZMA_STREAM_END, so the end of the stream depends on how the caller's output buffer was sliced",
+          key="PROTO:end-checked-after-drain")
+
+
 def check_proto(ck, prog):
     from . import oblig
     from .oblig import MP
@@ -1018,7 +1057,8 @@ def check_proto(ck, prog):
           "simple_code(): call_filter(coder, coder->buffer, ...) is skipped when end_was_reached is set: the last bytes of the "
           "stream that were waiting in coder->buffer are released unfiltered, so the result depends on how the output was "
           "sliced", key="PROTO:buffer-always-filtered")
-    ck.floor("C15-PROTO", 6)
+    check_end_after_drain(ck, prog)
+    ck.floor("C15-PROTO", 7)
 
 
 def run(ck):
